@@ -27,6 +27,12 @@ for m in re.finditer(r"^\+\+\+ b/(.+)$", patch, re.M):
     if d not in dirs: dirs.append(d)
 res = {"property": prop, "name": name, "source": "independent sub-agent given only the property text and a scratch worktree", "confirmed_at": time.strftime("%Y-%m-%d %H:%M")}
 def pkg_of_demo(f):
+    if os.environ.get("DEMO_DIR"):
+        return os.environ["DEMO_DIR"]
+    return _pkg_of_demo(f)
+
+
+def _pkg_of_demo(f):
     txt = open(os.path.join(src, f)).read()
     m = re.search(r"^package (\w+)", txt, re.M)
     pk = m.group(1) if m else ""
